@@ -137,10 +137,15 @@ const EXTRA_DERIVES: &[&str] = &[
     "std::hash::Hash", "strum::EnumIter", "my_crate::derives::Thing",
 ];
 const ENUM_ATTRS: &[&str] = &[
+    "#[logos_meta(version = 1)]", "#[derive()]", "#[cfg_attr(docsrs, doc(cfg(feature = \"lexer\")))]",
     "#[repr(u8)]", "#[allow(dead_code)]", "#[cfg_attr(test, derive(PartialOrd))]", "#[doc = \"A token.\"]", "#[non_exhaustive]", "#[must_use]",
     "#[cfg_attr(feature = \"serde\", derive(serde::Serialize))]", "#[rustfmt::skip]", "#[serde(rename_all = \"snake_case\")]",
 ];
-const VARIANT_ATTRS: &[&str] = &["#[cfg(feature = \"x\")]", "#[allow(unused)]", "#[doc = \"variant\"]", "#[serde(rename = \"v\")]", "#[default]", "#[deprecated]"];
+const VARIANT_ATTRS: &[&str] = &[
+    "#[cfg(feature = \"x\")]", "#[allow(unused)]", "#[doc = \"variant\"]", "#[serde(rename = \"v\")]", "#[default]", "#[deprecated]",
+    // near-miss names: not logos attributes, must be preserved
+    "#[tokens]", "#[regex_like(\"x\")]", "#[logos_extra(skip)]", "#[my::token(\"x\")]", "#[cfg_attr(test, token(\"t\"))]",
+];
 const FIELD_ATTRS: &[&str] = &["#[allow(unused)]", "#[serde(borrow)]", "#[doc = \"field\"]", "#[cfg(test)]"];
 
 fn parse_attrs(text: &str) -> Vec<syn::Attribute> {
@@ -196,6 +201,21 @@ pub fn decorate(source: &str, rng: &mut Rng) -> String {
         new_attrs.insert(0, parse_attrs(ENUM_ATTRS[rng.below(ENUM_ATTRS.len())]).remove(0));
     }
     item.attrs = new_attrs;
+    // visibility and explicit discriminants
+    match rng.below(6) {
+        0 => item.vis = syn::parse_str("pub").unwrap(),
+        1 => item.vis = syn::parse_str("pub(crate)").unwrap(),
+        2 => item.vis = syn::Visibility::Inherited,
+        _ => {}
+    }
+    if rng.chance(1, 6) {
+        for (k, v) in item.variants.iter_mut().enumerate() {
+            if v.discriminant.is_none() && rng.chance(1, 2) {
+                let e: syn::Expr = syn::parse_str(&format!("{}", 10 + 3 * k)).unwrap();
+                v.discriminant = Some((Default::default(), e));
+            }
+        }
+    }
     // 2. variants and fields
     for v in item.variants.iter_mut() {
         if rng.chance(1, 4) {
